@@ -461,13 +461,13 @@ def run(ctx):
         for ns, nh, E in all_small(3, 3):
             # the real function under both orders against the oracle; model on order 0 (with the certificate
             # cross-check), on the shuffled order for every 3rd relation, sharemap-level model for every 3rd
-            one_case(ctx, batch, E, set(), [0, 2], ctx.rng("small", n), "exhaustive-%dx%d" % (ns, nh), deep=(n % 41 == 0),
+            one_case(ctx, batch, E, set(), [0, 2], ctx.rng("small", n), "exhaustive-%dx%d" % (ns, nh), deep=(n % 61 == 0),
                      model=[0, 2] if n % 3 == 0 else [0], cert=[0], top=[0] if n % 3 == 1 else [])
             one_case(ctx, batch, E, set(), [0], ctx.rng("small-int", n), "exhaustive-%dx%d" % (ns, nh), naming="int",
                      model=(n % 4 == 0), cert=False, top=False, deep=(n % 164 == 0))
             n += 1
         cells = [(p, s) for p in range(4) for s in range(4)]
-        for i in range(ctx.n(200, 3000)):
+        for i in range(ctx.n(150, 3000)):
             r = ctx.rng("s44", i)
             bits = r.getrandbits(16)
             E44 = [c for j, c in enumerate(cells) if bits >> j & 1]
